@@ -17,7 +17,7 @@ func outErr(err error) string {
 }
 
 // addTarget registers a target with its raw families and one alteration family per valid encoding.
-func addTarget(thorough bool, name string, rawQ, rawT int, run func(e *enc, in []byte) string) *target {
+func addTarget(thorough bool, chunk int, name string, rawQ, rawT int, run func(e *enc, in []byte) string) *target {
 	t := &target{name: name, raw: [2]int{rawQ, rawT}, run: run, encs: prepEncs[name]}
 	n := rawQ
 	if thorough {
@@ -25,7 +25,7 @@ func addTarget(thorough bool, name string, rawQ, rawT int, run func(e *enc, in [
 	}
 	t.fams = rawFam(t, n)
 	for i := range t.encs {
-		t.fams = append(t.fams, altFams(t, &t.encs[i], 4096)...)
+		t.fams = append(t.fams, altFams(t, &t.encs[i], chunk)...)
 	}
 	targets = append(targets, t)
 	return t
@@ -33,15 +33,15 @@ func addTarget(thorough bool, name string, rawQ, rawT int, run func(e *enc, in [
 
 func buildTargets(thorough bool) {
 	targets = nil
-	addTarget(thorough, "store.TxHeader.ReadFrom", 3, 3, func(_ *enc, in []byte) string {
+	addTarget(thorough, 4096, "store.TxHeader.ReadFrom", 3, 3, func(_ *enc, in []byte) string {
 		return outErr(new(store.TxHeader).ReadFrom(in))
 	})
-	addTarget(thorough, "store.TxMetadata.ReadFrom", 3, 3, func(_ *enc, in []byte) string {
+	addTarget(thorough, 4096, "store.TxMetadata.ReadFrom", 3, 3, func(_ *enc, in []byte) string {
 		return outErr(store.NewTxMetadata().ReadFrom(in))
 	})
 	// NewMetadata + the typed getters its callers use (singleapp.Open, store.OpenWith, tbtree.OpenWith call
 	// GetInt / GetBool on whatever the file contained).
-	addTarget(thorough, "appendable.Metadata", 3, 3, func(_ *enc, in []byte) string {
+	addTarget(thorough, 4096, "appendable.Metadata", 3, 3, func(_ *enc, in []byte) string {
 		m := appendable.NewMetadata(in)
 		n := 0
 		for _, k := range []string{"INT", "BOOL", "BLOB", ""} {
